@@ -8,9 +8,14 @@
 the same exception info, `exit_ok = all(...)`), `ast_assert`, the body loop of `EvalFunc.call` (only `EvalReturn`
 ends the function).  `Py.*` (in `Spec/C02.lean`) is the language reference.
 
-Every decision a program takes at run time (conditions, iteration counts) is read from a tape; every observable
-step appends an event.  Exception classes are numbers with an arbitrary subclass relation `sub` (a parameter).
-The two deviation flags of `Cfg` select between the code as it is today (`Current.cfg`) and the repaired shape.
+Every decision a program takes at run time (conditions, iteration counts, whether the task is cancelled while it is
+suspended at an `await`) is read from a tape; every observable step appends an event.  Exception classes are numbers with
+an arbitrary subclass relation `sub` (a parameter); the classes `≥ 200` are the ones that derive from `BaseException` but
+NOT from `Exception` (`baseOnly`: asyncio.CancelledError = 201, SystemExit, KeyboardInterrupt, GeneratorExit, user classes):
+`ast_try` / `with_items` catch with `except Exception`, so such an exception passes every `except` clause and reaches
+`__exit__` without exception info – but the `finally:` clause (Python's own `finally:` inside `ast_try`) runs for EVERY
+way out of the try statement.  The deviation flags of `Cfg` select between the code as it is today (`Current.cfg`) and the
+repaired / Python shape.
 -/
 namespace PsModel.C02
 
@@ -28,6 +33,10 @@ deriving Repr, DecidableEq, BEq
 
 def runtimeError : Nat := 100            -- bare `raise` with no active exception
 def assertionError : Nat := 101
+def cancelledError : Nat := 201          -- asyncio.CancelledError: delivered at a suspension point by task.cancel()
+
+/-- the class derives from `BaseException` but not from `Exception` (class numbers from 200 up) -/
+def baseOnly (c : Nat) : Bool := Nat.ble 200 c
 
 structure WItem where
   id : Nat
@@ -57,6 +66,7 @@ inductive Stmt where
   | try_ (body : List Stmt) (handlers : List Handler) (orelse fin : List Stmt)
   | with_ (items : List WItem) (body : List Stmt)
   | assert_ (i : Nat)
+  | suspend (i : Nat)                    -- `await S(i)`: a suspension point; the task may be cancelled while it waits here
 inductive Handler where
   | mk (classes : Option (List Nat)) (pre : HPre) (body : List Stmt)     -- `except:` / `except <expr>:`
 end
@@ -85,9 +95,20 @@ inductive Res where
 deriving Repr, DecidableEq
 
 structure Cfg where
-  loopElsePropagates : Bool     -- `else` clause of for/while returns ANY stop-flow marker (today: only EvalReturn)
-  withNested : Bool             -- `with a, b` behaves like nested with-statements (today: phases)
+  loopElsePropagates : Bool     -- `else` clause of for/while returns ANY stop-flow marker (pre-fix: only EvalReturn)
+  withNested : Bool             -- `with a, b` behaves like nested with-statements (pre-fix: phases)
+  catchesBase : Bool            -- `except` clauses / `__exit__` see BaseException-only classes (today: `except Exception`)
 deriving Repr, DecidableEq
+
+/-- `except Exception as err:` in `ast_try` / `except Exception:` in `with_items` is NOT entered for this exception -/
+def skipsHandlers (cfg : Cfg) (e : Exc) : Bool := !cfg.catchesBase && baseOnly e.cls
+
+/-- `await S(i)`: logs `T(i)` and consumes one tape cell; the value 2 means the task is cancelled while suspended here
+(`CancelledError` is raised at this point), anything else resumes normally -/
+def World.suspend (w : World) (i : Nat) : Option Exc × World :=
+  match w.tape with
+  | [] => (none, { w with log := w.log ++ [.tick i] })
+  | b :: t => (if b == 2 then some { cls := cancelledError } else none, { log := w.log ++ [.tick i], tape := t })
 
 /-- `isinstance(err, exc)` over the handler's class list; `except:` matches everything -/
 def handlerMatches (sub : Nat → Nat → Bool) (e : Exc) : Option (List Nat) → Bool
@@ -147,9 +168,16 @@ def exitAll (items : List WItem) (e : Option Nat) (w : World) : Bool × World ×
     (acc.1 && m.suppress, acc.2.1.emit (.exit m.id e), match m.exitRaises with | some c => some c | none => acc.2.2)) (true, w, none)
 
 /-- the tail of `ast_with` once the body (or an `__enter__`) produced `r` -/
-def withFinish (items : List WItem) (r : Res × World) : Res × World :=
+def withFinish (cfg : Cfg) (items : List WItem) (r : Res × World) : Res × World :=
   match r with
   | (.exc e, w) =>
+    if skipsHandlers cfg e then
+      -- `except Exception:` is passed; the `finally: if not hit_except:` arm calls `__exit__(None, None, None)` and
+      -- ignores what it returns
+      match exitAll items none w with
+      | (_, w', some c) => (.exc { cls := c }, w')
+      | (_, w', none) => (.exc e, w')
+    else
     match exitAll items (some e.cls) w with
     | (_, w', some c) => (.exc { cls := c }, w')        -- `__exit__` raised while the exception was propagating
     | (ok, w', none) => if ok then (.ok none, w') else (.exc e, w')
@@ -174,6 +202,10 @@ def exec (cfg : Cfg) (sub : Nat → Nat → Bool) : Nat → Option Exc → Stmt 
   | _+1, _, .assert_ i, w =>
     let (c, w1) := w.ask i
     if c ≠ 0 then (.ok none, w1) else (.exc { cls := assertionError }, w1)
+  | _+1, _, .suspend i, w =>
+    match w.suspend i with
+    | (some e, w1) => (.exc e, w1)
+    | (none, w1) => (.ok none, w1)
   | n+1, h, .ite i b o, w =>
     let (c, w1) := w.ask i
     if c ≠ 0 then stmts cfg sub n h b w1 else stmts cfg sub n h o w1
@@ -186,12 +218,15 @@ def exec (cfg : Cfg) (sub : Nat → Nat → Bool) : Nat → Option Exc → Stmt 
     let r2 : Res × World :=
       match r1 with
       | (.exc e, w1) =>
+        -- `except Exception as err:` – a BaseException-only exception passes all clauses (no type expression is evaluated)
+        if skipsHandlers cfg e then (.exc e, w1) else
         match selectHandler sub e hs w1 with
         | (.found hb, w2) => stmts cfg sub n (some e) hb w2
         | (.notFound, w2) => (.exc e, w2)
         | (.raised e2, w2) => (.exc e2, w2)
       | (.ok (some m), w1) => (.ok (some m), w1)            -- `return val` from inside the try body
       | (.ok none, w1) => stmts cfg sub n h o w1            -- else clause
+    -- Python's own `finally:` of `ast_try`: the final body runs whatever `r2` is (incl. BaseException-only exceptions)
     finish r2.1 (stmts cfg sub n (handlingIn r2.1 h) f r2.2)
   | n+1, h, .with_ items b, w =>
     if cfg.withNested then
@@ -209,12 +244,12 @@ def exec (cfg : Cfg) (sub : Nat → Nat → Bool) : Nat → Option Exc → Stmt 
               match ms with
               | [] => stmts cfg sub n h b w1
               | _ :: _ => exec cfg sub n h (.with_ ms b) w1
-          withFinish [m] r
+          withFinish cfg [m] r
     else
       let w1 := initAll items w
       match enterAll items w1 with
-      | (some e, w2) => withFinish items (.exc e, w2)
-      | (none, w2) => withFinish items (stmts cfg sub n h b w2)
+      | (some e, w2) => withFinish cfg items (.exc e, w2)
+      | (none, w2) => withFinish cfg items (stmts cfg sub n h b w2)
 
 /-- `for arg1 in body: val = aeval(arg1); if isinstance(val, EvalStopFlow): return val` -/
 def stmts (cfg : Cfg) (sub : Nat → Nat → Bool) : Nat → Option Exc → List Stmt → World → Res × World
@@ -272,9 +307,64 @@ def bodyStmts (cfg : Cfg) (sub : Nat → Nat → Bool) (n : Nat) : List Stmt →
 end PS
 
 /-- what the code does today (the correspondence check is what certifies these values) -/
-def Current.cfg : Cfg := { loopElsePropagates := true, withNested := true }
+def Current.cfg : Cfg := { loopElsePropagates := true, withNested := true, catchesBase := false }
 
 /-- before the `fix:` commit for the loop-else clause -/
-def Cfg.preFix : Cfg := { loopElsePropagates := false, withNested := false }
+def Cfg.preFix : Cfg := { loopElsePropagates := false, withNested := false, catchesBase := false }
+
+/-! ## return markers: which object carries a pending `return <value>`
+
+Between `ast_return` and the body loop of `EvalFunc.call` the `EvalReturn` marker travels up through `finally` clauses and
+manager exits, which run arbitrary script code: they may call the same function again, or suspend while another task
+(own `AstEval`, same `EvalFunc`, same AST nodes) executes the same `return` statement.  `MStore` makes the identity of the
+marker objects explicit: a heap of `EvalReturn` objects, which object each activation is carrying, and (for the rejected
+allocation scheme) the object cached on each `ast.Return` node. -/
+
+inductive MarkerAlloc where
+  | fresh                          -- today: `EvalReturn(value)` – a new object on every execution of a return statement
+  | perNode (clear : Bool)         -- one cached object per `ast.Return` node, `.value` overwritten on each execution;
+                                   -- `clear`: `EvalFunc.call` resets `.value` to None after reading it
+deriving Repr, DecidableEq
+
+/-- what the activations of a function do, in the order it happens: `ret a node v` – activation `a` executes the return
+statement `node` with value `v` (the marker is now pending); `take a` – `EvalFunc.call` of activation `a` receives the marker
+its body produced and reads `.value` -/
+inductive MEv where
+  | ret (act node v : Nat)
+  | take (act : Nat)
+deriving Repr, DecidableEq
+
+structure MStore where
+  cells : List (Option Nat) := []          -- the EvalReturn objects: their `.value` (none = Python None)
+  pending : List (Nat × Nat) := []         -- activation ↦ index of the object it is carrying (latest first)
+  cache : List (Nat × Nat) := []           -- `ast.Return` node ↦ index of its cached object (`perNode` only)
+  out : List (Nat × Option Nat) := []      -- what each `EvalFunc.call` returned, in order
+deriving Repr, DecidableEq
+
+def MStore.alloc (s : MStore) (a v : Nat) : MStore :=
+  { s with cells := s.cells ++ [some v], pending := (a, s.cells.length) :: s.pending }
+
+def MStore.step (mode : MarkerAlloc) (s : MStore) : MEv → MStore
+  | .ret a node v =>
+    match mode with
+    | .fresh => s.alloc a v
+    | .perNode _ =>
+      match s.cache.lookup node with
+      | some i => { s with cells := s.cells.set i (some v), pending := (a, i) :: s.pending }
+      | none => { s.alloc a v with cache := (node, s.cells.length) :: s.cache }
+  | .take a =>
+    match s.pending.lookup a with
+    | none => { s with out := s.out ++ [(a, none)] }                -- no marker: the body fell off its end
+    | some i =>
+      let v := (s.cells[i]?).getD none
+      match mode with
+      | .perNode true => { s with cells := s.cells.set i none, out := s.out ++ [(a, v)] }
+      | _ => { s with out := s.out ++ [(a, v)] }
+
+def MStore.run (mode : MarkerAlloc) (evs : List MEv) : List (Nat × Option Nat) :=
+  (evs.foldl (MStore.step mode) {}).out
+
+/-- how `ast_return` allocates today -/
+def Current.markerAlloc : MarkerAlloc := .fresh
 
 end PsModel.C02
